@@ -57,6 +57,7 @@ def gen_text(rnd):
 
 class C18(Monitor):
     prop = "C18"
+    quick_cases = 2500
     rule = ("strings over the G-code alphabet (letters incl. G M T N, digits, sign, dot, space, tab, '*', ';', backslash, '(', '@', "
             "':', CR, LF, a non-ASCII letter), half of them structured lines, length <= 120, back-slash runs <= 12; parsed line by "
             "line with ONE parser instance; one case = a batch of 50 strings; non-trivial = a string of >= 2 lines containing a "
@@ -65,8 +66,6 @@ class C18(Monitor):
                    "a line that exceeds the 2 s watchdog is counted as slow, not judged"]
     BATCH = 50
 
-    def budget(self, tier):
-        return dict(workers=4, cases=600) if tier == "quick" else dict(workers=16, cases=0, secs=150, timeout=1200)
 
     def gen_case(self, rnd, tier, k):
         return dict(texts=[gen_text(rnd) for _ in range(self.BATCH)])
@@ -217,6 +216,7 @@ def reference_read(param_text):
 
 class C19(Monitor):
     prop = "C19"
+    quick_cases = 600
     rule = ("word sequences over X Y Z E F I J R S P T in every legal spelling (case, 0-2 blanks between and inside words, signs, "
             ".5, 5., leading zeros, trailing zeros, repeated letters, valueless flags), no exponents; (a) real parameterItems() "
             "restricted to letter-named items vs an independent reader and vs the generator's intended list; (b) through the real "
@@ -226,8 +226,6 @@ class C19(Monitor):
     assumptions = ["G92 X/Y/Z is excluded from part (b): its offset arithmetic is the recorded finding K2", "no exponent notation"]
     BATCH = 40
 
-    def budget(self, tier):
-        return dict(workers=4, cases=500) if tier == "quick" else dict(workers=16, cases=0, secs=150, timeout=1200)
 
     def gen_case(self, rnd, tier, k):
         items = []
